@@ -524,6 +524,51 @@ def rule_takeover_lost_race(ctx, rule):
     ctx.floor(rule, "takeover_removal_sites", n_sites, 2)
 
 
+def rule_release_only_own_lock(ctx, rule):
+    """acquire(): outside the grace-period take-over, release() - which removes <file>.lock by path - is reached only after THIS call's
+    exclusive create has completed normally. A clean-up arm that is also entered when the create did not happen (an asynchronous exception -
+    KeyboardInterrupt, SystemExit - arriving in the try body of a polling round while another worker holds the lock) removes the holder's lock:
+    the dying waiter breaks mutual exclusion for the survivors, and the holder's own release then fails with RuntimeError."""
+    p = ctx.program
+    n_cls = 0
+    for cls in lock_classes(p):
+        f = cls.methods.get("acquire")
+        if f is None:
+            continue
+        n_cls += 1
+        g = CFG(f.node, name=f.qualname)
+        pm = parent_map(f.node)
+        creates = [n for n in g.stmt_nodes() for c in n.calls() if dotted(c.func) in ("os.symlink", "os.open", "os.link", "os.mkdir")]
+        ctx.require(creates, f"{rule}: exclusive create not found in {cls.name}.acquire")
+        normal_out = [(n, k, m) for n in creates for k, m in n.succ if k == "n"]
+        for n in g.stmt_nodes():
+            for c in n.calls():
+                if self_attr(c.func) != "release":
+                    continue
+                anc = [a for a in ancestors(c, pm) if isinstance(a, ast.ExceptHandler)]
+                if anc and "OSError" in handler_names(anc[0].type) and "BaseException" not in handler_names(anc[0].type):
+                    continue  # the forced take-over of a stale lock (R07.6)
+                ok = bool(normal_out) and g.dominated_by(n, [], normal_out)
+                if not ok and normal_out:
+                    # ownership flag: `created = False` ... create; `created = True` ... `if created: self.release()`
+                    for a in ancestors(c, pm):
+                        if isinstance(a, ast.If) and isinstance(a.test, ast.Name):
+                            v = a.test.id
+                            sets = [m for m in g.stmt_nodes() if m.kind == "stmt" and isinstance(m.ast, ast.Assign) and any(isinstance(t, ast.Name) and t.id == v for t in m.ast.targets)]
+                            trues = [m for m in sets if isinstance(m.ast.value, ast.Constant) and m.ast.value.value is True]
+                            others = [m for m in sets if m not in trues and not (isinstance(m.ast.value, ast.Constant) and m.ast.value.value is False)]
+                            in_body = any(c is y for st_ in a.body for y in ast.walk(st_))
+                            if in_body and trues and not others and all(g.dominated_by(m, [], normal_out) for m in trues):
+                                ok = True
+                ctx.check(ok, rule, f.short, "release-only-after-own-create",
+                          message=f"{cls.name}.acquire calls self.release() in a clean-up arm that is also entered when this call has not created the lock: a waiter hit by "
+                                  f"KeyboardInterrupt / SystemExit inside the try body of a polling round - while another worker holds the lock - removes that holder's "
+                                  f"lock file. Mutual exclusion is lost for the survivors and the holder's own storage call fails with RuntimeError('did not possess lock') "
+                                  f"although its record was written",
+                          how="release() dominated by the normal continuation of the create call (flag set after the create, or try/else)", where=where(f, c))
+    ctx.floor(rule, "lock_classes", n_cls, 2, exact=True)
+
+
 def rule_append_starts_on_record_boundary(ctx, rule):
     """A writer that died in the middle of a write leaves a record without its newline.  The next append (lock held,
     so nobody else is writing) must not start its own record right behind those bytes: before the write, append_logs
